@@ -11,6 +11,15 @@
    S      the reference set over 0..end  (the property's "mathematical set")
    res    [op, impl, ref]: result computed by the transcription / by the set
 
+   Interval abstraction (DESIGN 2.3).  The code only ever compares positions and adds lengths to them, so a
+   position may also be read as the index of a CELL: the trace specification keeps a table of cut points
+   c_0 < c_1 < ... (real bit positions drawn from a catalogue of the real constants: byte, 64-bit word, the
+   256-byte chunk of ext2fs_mem_is_zero, 2^16, 2^17, 2^32) and maps a real position c_k to k, a real extent
+   <<c_i, c_j - c_i>> to <<i, j - i>>.  Adjacent cells are adjacent bit ranges, so merge / split / bridge behave
+   identically; every operation whose range ends on cut points is exactly one step of this module on cell
+   indices.  The only operation that walks bit by bit is compare (one rb_test_bit per position): a cell wider than
+   one bit is tested several times in a row, which is why FoldTest takes the set Wd of wide cells.
+
    Every operator below transcribes one C function; search loops that end on
    "parent = last node visited" are shape independent (the code skips a
    predecessor explicitly), which is why a sorted list is a faithful model.
@@ -241,19 +250,31 @@ SetPadding == /\ LET o == InsertExtent(ext, cur, end + 1, rend - end) IN ext' = 
 
 \* ext2fs_compare_generic_bmap(bitmap, copy of it with bit b flipped / unmodified copy): rb_copy_bmap NULLs the
 \* source's rcursor, then both bitmaps are tested position by position until the first difference
-RECURSIVE FoldTest(_, _, _, _)
-FoldTest(x, c, i, last) == IF i > last THEN c ELSE FoldTest(x, TestBit(x, c, i).c, i + 1, last)
+\* Wd: cells that stand for more than one bit (interval abstraction; {} when positions are bits).  Two consecutive
+\* tests of the same cell are not idempotent (a wcursor hit NULLs rcursor, the next test finds it by tree search),
+\* from the second test on they are.
+RECURSIVE FoldTest(_, _, _, _, _)
+FoldTest(x, c, i, last, Wd) ==
+   IF i > last THEN c
+   ELSE LET c1 == TestBit(x, c, i).c
+            c2 == IF i \in Wd THEN TestBit(x, c1, i).c ELSE c1
+        IN FoldTest(x, c2, i + 1, last, Wd)
 CmpLast == IF DevCmpLast THEN end - 1 ELSE end          \* relative position of the last compared bit (may be "-1": none)
-CompareEq == /\ cur' = Canon(IF DevCmpLast /\ end = 0 THEN [cur EXCEPT !.r = 0, !.n = 0]
-                             ELSE FoldTest(ext, [cur EXCEPT !.r = 0, !.n = 0], 0, CmpLast))
+CompareEqW(Wd) ==
+             /\ cur' = Canon(IF DevCmpLast /\ end = 0 THEN [cur EXCEPT !.r = 0, !.n = 0]
+                             ELSE FoldTest(ext, [cur EXCEPT !.r = 0, !.n = 0], 0, CmpLast, Wd))
              /\ res' = R("cmp", 0, 0) /\ UNCHANGED <<ext, end, rend, S>>
-CompareFlip(b) == /\ b \in 0..end
+\* the flipped position b is one bit wide
+CompareFlipW(b, Wd) ==
+                  /\ b \in 0..end /\ b \notin Wd
                   /\ LET seen == ~(DevCmpLast /\ b = end)
                          c0   == [cur EXCEPT !.r = 0, !.n = 0]
-                     IN /\ cur' = Canon(IF seen THEN FoldTest(ext, c0, 0, b)
-                                        ELSE IF end = 0 THEN c0 ELSE FoldTest(ext, c0, 0, end - 1))
+                     IN /\ cur' = Canon(IF seen THEN FoldTest(ext, c0, 0, b, Wd)
+                                        ELSE IF end = 0 THEN c0 ELSE FoldTest(ext, c0, 0, end - 1, Wd))
                         /\ res' = R("cmp", Bit(seen), 1)
                   /\ UNCHANGED <<ext, end, rend, S>>
+CompareEq == CompareEqW({})
+CompareFlip(b) == CompareFlipW(b, {})
 
 BitStrings(n) == [1..n -> {0, 1}]
 
@@ -265,6 +286,7 @@ Next == \/ \E b \in 0..end : Mark(b) \/ Unmark(b) \/ Test(b)
         \/ \E b \in 0..end : \E n \in 1..(IF end - b + 1 < 4 THEN end - b + 1 ELSE 4) : \E bits \in BitStrings(n) : SetRange(b, bits)
         \/ Clear \/ Copy \/ SetPadding \/ CompareEq
         \/ \E b \in 0..end : CompareFlip(b)
+        \/ CompareEqW(0..end) \/ \E b \in 0..end : CompareFlipW(b, (0..end) \ {b})      \* interval abstraction: every other cell wide
         \/ \E ne \in 0..(MaxN - 1) : \E nre \in ne..(MaxN - 1) : Resize(ne, nre)
 Spec == Init /\ [][Next]_vars
 
